@@ -37,7 +37,11 @@ func main() {
 	)
 	flag.Parse()
 	if *replay != "" {
-		os.Exit(replayFiles(*replay, *claim, *include))
+		rc := replayFiles(*replay, *claim, *include, *jsonOut, *seed)
+		if *jsonOut != "" {
+			rc = 0 // the findings are in the report
+		}
+		os.Exit(rc)
 	}
 	rep := hx.NewReport("incrtrace/"+*prop, *seed)
 	rng := hx.NewRand(*seed)
@@ -257,7 +261,14 @@ func main() {
 }
 
 // replayFiles re-runs stored histories (field replay.ops_json) with all oracles on.
-func replayFiles(path, claim, include string) int {
+func replayFiles(path, claim, include, jsonOut string, seed uint64) int {
+	rep := hx.NewReport("incrtrace/corpus", seed)
+	rep.Rule = "stored histories (minimised failures found earlier, one file each) replayed with every oracle on"
+	defer func() {
+		if jsonOut != "" {
+			_ = rep.Write(jsonOut)
+		}
+	}()
 	var files []string
 	if st, err := os.Stat(path); err == nil && st.IsDir() {
 		entries, _ := os.ReadDir(path)
@@ -314,10 +325,14 @@ func replayFiles(path, claim, include string) int {
 				fmt.Println(e.Samples[j].Stack)
 			}
 		}
+		rep.Evaluations++
+		rep.Distinct++
 		for _, fd := range findings {
 			fmt.Printf("  FINDING %s:%s %s\n", fd.Prop, fd.Kind, fd.What)
 			if fd.Prop == claim || strings.Contains(","+include+",", ","+fd.Prop+",") || claim == "" {
 				rc = 1
+				rep.AddViolation(hx.Violation{Property: claim, What: fd.What + " (stored history " + f + ")", Key: "engine:" + fd.Prop + ":" + fd.Kind + ":" + strings.Join(e.OpStrings(), ";"),
+					Replay: map[string]any{"max_height": mh, "ops": e.OpStrings(), "ops_json": e.Ops, "kind": fd.Kind, "corpus_file": f, "parallelism": doc.Replay.Parallelism}})
 			}
 		}
 	}
